@@ -203,11 +203,28 @@ def server_scenario(r, length=None, small=False):
         else:
             raw.append((t, ("api", [1 if running else 0])))
             running = not running
+    if r.random() < 0.35:
+        # directed: a live subscription, then a datagram that reveals a reboot AND renews / replaces it;
+        # or a service stop+start followed by a Subscribe at the same instant
+        a = r.choice(list(peers))
+        svc = SERVICES[0]
+        t1 = r.randrange(T, end // 2)
+        t2 = t1 + r.choice([1, T // 2, T])
+        e1 = sub_entry(r, svc, 5, r.choice([3, 0xFFFFFF]), 0, 1, ep_n=a)
+        raw.append((t1, ("dg", a, False, [e1])))
+        if r.random() < 0.6:
+            raw.append((t2, ("reboot-dg", a, False, [sub_entry(r, svc, r.choice([5, 5, 6]), r.choice([3, 0xFFFFFF]), 0, 1, ep_n=a)])))
+        else:
+            raw.append((t2, ("api", [16])))
+            raw.append((t2, ("api", [15])))
+            raw.append((t2 + cfg[1] + cfg[5] * 16 + 1, ("dg", a, False, [e1])))
     raw.sort(key=lambda x: x[0])
     events = []
     for t, ev in raw:
-        if ev[0] == "dg":
+        if ev[0] in ("dg", "reboot-dg"):
             _, a, mc, es = ev
+            if ev[0] == "reboot-dg":
+                peers[a].reboot()
             events.append((t, (0, a, mc, peers[a].datagram(es, mc))))
         else:
             events.append((t, (1, ev[1])))
